@@ -382,7 +382,20 @@ func (h *hdrRun) checkInverse(s consensus.State, child uint64) {
 // headerProbes: the four single defects must each be refused, and the
 // earliest permitted timestamp accepted.
 func (h *hdrRun) headerProbes(s consensus.State, good types.BlockHeader, med time.Time) {
-	target := s.PoWTarget()
+	// the target by definition: the recorded target until the final cut, the
+	// floored inverse of the difficulty from then on
+	target := s.ChildTarget
+	if s.Index.Height+1 >= h.net.HardforkV2.FinalCutHeight {
+		q := new(big.Int)
+		if d := wBig(s.Difficulty); d.Sign() != 0 {
+			q.Quo(maxTargetBig, d)
+		}
+		q.FillBytes(target[:])
+	}
+	if lib := s.PoWTarget(); lib != target {
+		h.violate("pow-target-of-record", fmt.Sprintf("height %d: PoWTarget() = %v, the target the era defines is %v", s.Index.Height+1, lib, target))
+		return
+	}
 	f := s.NonceFactor()
 	reseal := func(bh *types.BlockHeader) bool {
 		bh.Nonce -= bh.Nonce % f
